@@ -175,6 +175,142 @@ def run_stream(prop, res, sc, workdir):
     return info
 
 
+# ------------------------------------------------------------------------------------------------
+# witness shrinking
+#
+# A witness (input on which the judge rejects what the implementation did) of an operation-sequence
+# stream can be a walk of 90 operations. Streams whose Go side has a Shrink function (hx.Stream.Shrink,
+# harness/streams/shrink.go; `h shrink <stream>` prints the smaller candidate inputs of an input,
+# smallest change first) get their witnesses reduced by a bounded greedy loop: re-run the
+# implementation on the candidates (same binary, same race setting as the run), judge the new
+# observations, adopt the smallest candidate on which the judge still fails with the SAME first
+# clause number, start over from it. Shrinking happens only after a witness was found and never
+# changes whether a violation is reported; it only makes the replay file smaller. The original
+# input stays in the replay file (original_input / original_desc).
+
+SHRINK_MAX_RUNS = 200      # implementation runs per witness
+SHRINK_MAX_S = 30.0        # seconds per witness
+SHRINK_BATCH = 16          # candidates handed to one `h run` / `modelrun` invocation
+
+
+def _verdict_class(verdict):
+    """`0 clause ...` -> clause; anything else that is not `1` (empty line, crash) -> the text."""
+    t = verdict.split()
+    return t[1] if len(t) >= 2 and t[0] == "0" else " ".join(t)
+
+
+def _input_size(line):
+    return (len(line.split()), len(line))
+
+
+def shrink_witness(prop, sc, w, info=None):
+    """Greedy, bounded delta debugging of the witness w (dict as written to the replay file).
+    Returns w itself (no Shrink for the stream, or nothing smaller fails) or a new dict holding the
+    shrunk input with its own observation and verdict plus original_input / original_desc."""
+    if os.environ.get("VERIF_NO_SHRINK") == "1" or not sc.judge:
+        return w
+    t0 = time.time()
+    wd = os.path.join(V.BUILD, "run", "shrink", f"{prop.pid}-{sc.name}")
+    os.makedirs(wd, exist_ok=True)
+    cls = _verdict_class(w["verdict"])
+    cur = dict(w)
+    runs, steps, rounds, why, spent = 0, [], 0, "no smaller input fails", 0.0
+    tried = {" ".join(w["input"].split())}
+
+    def left():
+        return SHRINK_MAX_S - (time.time() - t0)
+
+    try:
+        while True:
+            if runs >= SHRINK_MAX_RUNS or left() <= 0:
+                why = "budget"
+                break
+            rc, out = V.run_h(["shrink", sc.name, str(SHRINK_MAX_RUNS - runs)], inp=cur["input"] + "\n",
+                              race=sc.race, cwd=wd, timeout=max(5, left()))
+            if rc != 0:
+                why = "h shrink failed"
+                break
+            cands = [l for l in out.split("\n") if l.strip() and l.strip() != "--"]
+            cands = [c for c in cands if " ".join(c.split()) not in tried]
+            if not cands:
+                break
+            rounds += 1
+            adopted = None
+            # the list is smallest-change-first: walk it from the aggressive end, one batch at a time
+            while cands and adopted is None and runs < SHRINK_MAX_RUNS and left() > 0:
+                # batch size: one candidate at first, then what the time left allows at the measured cost per
+                # candidate (a candidate of a slow stream, e.g. a c13 script that hangs, takes seconds)
+                nb = 1 if runs == 0 else max(1, min(SHRINK_BATCH, int(left() / max(4 * spent / runs, 1e-6))))
+                nb = min(nb, SHRINK_MAX_RUNS - runs)
+                batch = cands[-nb:]
+                del cands[-nb:]
+                tb = time.time()
+                tried.update(" ".join(c.split()) for c in batch)
+                rc, out = V.run_h(["run", sc.name], inp="\n".join(batch) + "\n", race=sc.race, cwd=wd,
+                                  timeout=max(2, left()))   # the time budget is hard: a batch that overruns it is abandoned
+                runs += len(batch)
+                spent += time.time() - tb
+                impls = out.split("\n")
+                if rc != 0 or len(impls) < len(batch):
+                    why = "implementation run failed on a candidate batch"
+                    cands = []
+                    break
+                impls = impls[:len(batch)]
+                bad = dict(V.judge(sc.judge, batch, impls, wd, "cand"))
+                ok = []
+                for i, c in enumerate(batch):
+                    if i not in bad or _verdict_class(bad[i]) != cls:
+                        continue
+                    cw = {"stream": sc.name, "input": c, "desc": "", "impl_output": impls[i], "verdict": bad[i],
+                          "replay_hint": f"echo '{c}' | build/bin/h run {sc.name}", "_shrink_dir": wd}
+                    # a candidate of a recorded known-finding class is not a witness of a violation
+                    if prop.classify and prop.classify(cw):
+                        continue
+                    ok.append(cw)
+                if ok:
+                    adopted = min(ok, key=lambda x: _input_size(x["input"]))
+            if adopted is None:
+                if why == "no smaller input fails" and (runs >= SHRINK_MAX_RUNS or left() <= 0):
+                    why = "budget"
+                break
+            steps.append({"tokens": len(adopted["input"].split()), "runs": runs, "verdict": adopted["verdict"]})
+            cur = adopted
+    except Exception as e:           # a shrinker must never turn a found witness into a crash of the check
+        why = f"stopped: {type(e).__name__}: {e}"[:300]
+    if cur is w or not steps:
+        return w
+    # confirmation: the shrunk input has to fail once more, same clause (a no-op for a deterministic
+    # stream; an observation that depends on timing - c13 - must not replace the witness of the run by
+    # an input that failed by luck)
+    try:
+        rc, out = V.run_h(["run", sc.name], inp=cur["input"] + "\n", race=sc.race, cwd=wd, timeout=30)
+        again = dict(V.judge(sc.judge, [cur["input"]], [out.split("\n")[0]], wd, "confirm"))
+        confirmed = rc == 0 and 0 in again and _verdict_class(again[0]) == cls
+    except Exception:
+        confirmed = False
+    if not confirmed:
+        V.log(f"witness of {sc.name}: the shrunk input did not fail again; keeping the input the run found")
+        return w
+    cur.pop("_shrink_dir", None)
+    rc, out = V.run_h(["desc", sc.name], inp=cur["input"] + "\n", race=sc.race, cwd=wd, timeout=60)
+    d = out.split("\n")[0].strip() if rc == 0 else ""
+    cur["desc"] = d or ("shrunk from: " + w.get("desc", ""))
+    cur["original_input"] = w["input"]
+    cur["original_desc"] = w.get("desc", "")
+    cur["original_verdict"] = w["verdict"]
+    for k in w:                      # whatever a classifier attached to the original (e.g. worker_stderr)
+        if k not in cur and not k.startswith("_"):
+            cur["original_" + k] = w[k]
+    cur["shrink_steps"] = len(steps)
+    cur["shrink"] = {"tokens_before": len(w["input"].split()), "tokens_after": len(cur["input"].split()),
+                     "bytes_before": len(w["input"]), "bytes_after": len(cur["input"]),
+                     "implementation_runs": runs, "rounds": rounds, "seconds": round(time.time() - t0, 2),
+                     "stopped_because": why, "steps": steps}
+    V.log(f"witness of {sc.name} shrunk from {len(w['input'].split())} to {len(cur['input'].split())} tokens "
+          f"({len(steps)} steps, {runs} implementation runs, {round(time.time() - t0, 1)} s)")
+    return cur
+
+
 def witness_search(prop, res, infos):
     """Run the property judges over everything the streams observed on the implementation."""
     found = 0
@@ -187,6 +323,7 @@ def witness_search(prop, res, infos):
         info["judged"] = len(ins)
         info["judge_failures"] = len(bad)
         seen = set()
+        first = []                 # the first witness of each verdict class, in order
         for idx, verdict in bad:
             w = {"stream": sc.name, "input": ins[idx], "desc": desc[idx] if idx < len(desc) else "",
                  "impl_output": impl[idx], "verdict": verdict,
@@ -202,9 +339,13 @@ def witness_search(prop, res, infos):
                 continue
             seen.add(cls)
             found += 1
-            res.add_violation("witness", w, True)
+            first.append(w)
             if found >= 5:
                 break
+        # shrinking re-runs the implementation, so it comes after every observation of the run was
+        # classified; it replaces the content of a witness, never the decision to report it
+        for w in first:
+            res.add_violation("witness", shrink_witness(prop, sc, w, info), True)
     return found
 
 
@@ -313,6 +454,9 @@ def replay(prop, res, path):
         rc, out = V.run_h(["run", stream], inp=body["input"] + "\n", race=sc.race)
         impl = out.strip().split("\n")[0]
         print("input :", body.get("desc") or body["input"])
+        if "original_input" in body:
+            print(f"        (shrunk in {body.get('shrink_steps', '?')} steps from {len(body['original_input'].split())} to "
+                  f"{len(body['input'].split())} numbers; the input the run found is kept as original_input / original_desc)")
         print("impl  :", impl)
         try:
             V.build_modelrun()
@@ -911,9 +1055,10 @@ def _c13_attach(w):
     """Not a classifier of known findings (always None): copies what the worker process printed when it
     died on this case (panic text / race report, written by harness/streams/c13.go to
     build/c13-crash-N.log: description, input, blank line, stderr) into the witness, so that it lands
-    in the replay file."""
+    in the replay file. (A candidate of the witness shrinking is run from its own directory, named in
+    w["_shrink_dir"]; its crash log is looked up there.)"""
     import glob
-    for fn in sorted(glob.glob(os.path.join(V.BUILD, "c13-crash-*.log"))):
+    for fn in sorted(glob.glob(os.path.join(w.get("_shrink_dir") or V.BUILD, "c13-crash-*.log"))):
         try:
             parts = open(fn, errors="replace").read().split("\n", 3)
         except OSError:
